@@ -192,6 +192,36 @@ def expected_shape(cfg, opnames):
     return build(0, len(cfg) - 1)
 
 
+def value_stage(sylt, fnd, tier):
+    """'evaluates to the same value': `A op1 B op2 C` and its fully parenthesised form (grouped by the table) go through the whole compiler;
+    both must be accepted or both rejected, and when accepted the emitted Lua must be the same text (parentheses leave no trace in it)"""
+    typings = [("1", "2", "3"), ("true", "false", "true"), ("1", "2", "true"), ("true", "1", "2"), ("1.5", "2.5", "0.5"), ("\"a\"", "\"b\"", "\"c\"")]
+    if tier == "quick": typings = typings[:4]
+    ops = [o for o in OPS if o != "AssertEqual"]
+    n = 0; progs = {}
+    for o1 in ops:
+        for o2 in ops:
+            for ti, (a, b, c) in enumerate(typings):
+                flat = "%s %s %s %s %s" % (a, OPTEXT[o1], b, OPTEXT[o2], c)
+                full = "((%s %s %s) %s %s)" % (a, OPTEXT[o1], b, OPTEXT[o2], c) if LEVEL[o1] >= LEVEL[o2] else "(%s %s (%s %s %s))" % (a, OPTEXT[o1], b, OPTEXT[o2], c)
+                progs[(o1, o2, ti)] = (flat, full)
+    def comp(expr):
+        rc, lua, out = common.compile_sy(sylt, {"main.sy": "pr: fn *X -> void : external\nstart :: fn do\n    pr(%s)\nend\n" % expr}, extra=["--no-std"])
+        return (rc == 0 and lua is not None), lua, out
+    from concurrent.futures import ThreadPoolExecutor
+    items = list(progs.items())
+    with ThreadPoolExecutor(16) as tp: res = list(tp.map(lambda kv: (kv[0], comp(kv[1][0]), comp(kv[1][1])), items))
+    for (o1, o2, ti), (ok1, lua1, out1), (ok2, lua2, out2) in res:
+        n += 2; flat, full = progs[(o1, o2, ti)]
+        if ok1 != ok2:
+            fnd.report("value:acceptance:%s,%s" % (OPTEXT[o1], OPTEXT[o2]), "`%s` is %s but its fully parenthesised form `%s` is %s (%s)" % (flat, "accepted" if ok1 else "rejected", full, "accepted" if ok2 else "rejected", (out1 if not ok1 else out2)[-160:].replace("\n", " ")),
+                       {"flat.sy": "pr: fn *X -> void : external\nstart :: fn do\n    pr(%s)\nend\n" % flat, "full.sy": "pr: fn *X -> void : external\nstart :: fn do\n    pr(%s)\nend\n" % full}, cmd="sylt --no-std -o a.lua flat.sy; sylt --no-std -o b.lua full.sy")
+        elif ok1 and lua1 != lua2:
+            fnd.report("value:code:%s,%s" % (OPTEXT[o1], OPTEXT[o2]), "`%s` and its fully parenthesised form `%s` compile to different Lua" % (flat, full),
+                       {"flat.sy": "pr: fn *X -> void : external\nstart :: fn do\n    pr(%s)\nend\n" % flat, "full.sy": "pr: fn *X -> void : external\nstart :: fn do\n    pr(%s)\nend\n" % full}, cmd="sylt --no-std -o a.lua flat.sy; sylt --no-std -o b.lua full.sy; diff a.lua b.lua")
+    return n
+
+
 def configs(tier):
     kinds = list(ATOMS)
     cfgs = [("int", "int", "int")]
@@ -237,7 +267,8 @@ def run(tier):
             src = source_of(cfg, opn)
             fnd.report("grouping:%s" % ",".join(sorted(set(cfg))), "`%s` should group as %s but the native parser yields %s" % (src, expected_shape(cfg, opn), native_shape(cfg, opn)), {"expr.sy": src + "\n"})
         val += 1
-    cov = {"states": max(1, tot["paths"]), "transitions": max(1, tot["queries"]), "traces_validated_against_impl": replayed + val, "samples": samples or [{"note": "nothing ran"}],
+    nval = value_stage(_CTX["art"]["sylt"], fnd, tier)
+    cov = {"states": max(1, tot["paths"]), "transitions": max(1, tot["queries"]), "traces_validated_against_impl": replayed + val, "flat_vs_fully_parenthesised_compiles": nval, "samples": samples or [{"note": "nothing ran"}],
            "atom_configurations": len(cfgs), "mir_statements": tot["steps"], "solver_s": round(tot["solver_s"], 2),
            "functions_encoded": ["expression::expression", "parse_precedence", "prefix", "unary", "infix", "valid_infix", "precedence", "Prec::partial_cmp / next (derived)", "Context::{eat,token,peek,skip,span}", "assignable / sub_assignable / assignable_call / assignable_index / assignable_dot", "grouping_or_tuple", "value", "Expression::new"],
            "bounds": {"binary_operators_per_expression": 2 if tier == "quick" else 3, "operator_domain": 13, "atom_kinds": len(ATOMS)}, "unary_reading": unary_reading(), "known_findings_seen": sorted(fnd.seen_known)}
@@ -245,6 +276,6 @@ def run(tier):
     common.write_evidence("C13", tier, "model_checking", cov, ["token vectors are built directly (the lexer is not part of this check); spans are synthetic",
                           "the statement leaves unary - / not against * and / open: the reading is taken from the implementation once (`-10 * 11`: tight = (-10) * 11, loose = -(10 * 11)) and that one table is required at every position; reading on this tree: " + unary_reading(),
                           "std models: slice::get, Option::unwrap_or, Clone, Try::branch, Box::new, PartialOrd via derived partial_cmp, Vec::push, format! opaque",
-                          "'evaluates to the same value' is covered by C01's templates, whose reference reader has its own precedence table"], time.time() - t0, len(fnd.violations))
+                          "'evaluates to the same value': every pair of the 12 value operators over 4-6 operand typings is compiled flat and fully parenthesised; acceptance and the emitted Lua text must be equal (natively); run-time values of precedence-sensitive expressions are also in C01's templates"], time.time() - t0, len(fnd.violations))
     print("C13: %d atom configurations, %d paths, %d queries, %d native re-parses, wall %.1fs" % (len(cfgs), tot["paths"], tot["queries"], replayed + val, time.time() - t0))
     return rc
